@@ -180,6 +180,8 @@ def run(chk: Check) -> None:
                 if norm(e) == param:
                     return True
                 vals_ = _cv(ff, norm(e)) if isinstance(e, ast.Name) else []
+                if isinstance(e, ast.IfExp):   # the None case filled in on the spot
+                    vals_ = [(frozenset(ff.cond_atoms(e.test, True)), e.body), (frozenset(ff.cond_atoms(e.test, False)), e.orelse)]
                 return bool(vals_) and all(norm(v) == param or (norm(v) in empties and _is_none(fs, param)) for fs, v in vals_)
             ok = (len(c.args) == 1 and isinstance(c.args[0], ast.Starred) and stands_for(c.args[0].value, 'init_args', ('()', 'tuple()', '[]'))
                   and len(c.keywords) == 1 and c.keywords[0].arg is None and stands_for(c.keywords[0].value, 'init_kwargs', ('{}', 'dict()')))
@@ -232,16 +234,28 @@ def run(chk: Check) -> None:
     init = prog.view(pl.vmethods['__init__'])
     ff = chk.ctx.facts.analyse(init)
     icfg = ff.cfg
-    # the context extended with the configured loader is what ends up in self._load_context -- assigned directly, or built in a local that is stored afterwards on every path
-    ext = [n for n in icfg.nodes if n.kind == 'stmt' and isinstance(n.ast, ast.Assign) and 'copyextend(loader=loader)' in norm(n.ast.value)]
-    ok = len(ext) == 1 and ('notnone', 'loader') in ff.at(ext[0])
-    if ok and norm(ext[0].ast.targets[0]) != 'self._load_context':
-        tv = norm(ext[0].ast.targets[0])
-        fin = [n for n in icfg.nodes if n.kind == 'stmt' and isinstance(n.ast, ast.Assign) and norm(n.ast.targets[0]) == 'self._load_context' and norm(n.ast.value) == tv]
-        rebinds = [n for n in icfg.nodes if n.kind == 'stmt' and isinstance(n.ast, ast.Assign) and norm(n.ast.targets[0]) == tv and n is not ext[0] and n.id in icfg.reachable([ext[0]], edge_ok=no_exc)]
-        ok = isinstance(ext[0].ast.targets[0], ast.Name) and bool(fin) and not rebinds and icfg.must_pass(ext[0], [icfg.exit], lambda m: m in fin, edge_ok=no_exc)
-    sets = [n for n in icfg.nodes if n.kind == 'stmt' and isinstance(n.ast, ast.Assign) and norm(n.ast.targets[0]) == 'self._loader']
-    ok = ok and any(norm(s.ast.value) == 'loader' and ('notnone', 'loader') in ff.at(s) for s in sets) and any('get_object_loader()' in norm(s.ast.value) and ('none', 'loader') in ff.at(s) for s in sets)
+    # decision table over "a loader was given": what self._loader and self._load_context hold when __init__ returns, on every path (locals spelled out along the path)
+    from ..decisions import paths_under as _pu, value_on_path as _vop
+    lparam = 'loader'
+
+    def final(path, attr):
+        idx = [i for i, m in enumerate(path) if m.kind == 'stmt' and isinstance(m.ast, (ast.Assign, ast.AnnAssign)) and m.ast.value is not None
+               and norm(m.ast.targets[0] if isinstance(m.ast, ast.Assign) else m.ast.target) == attr]
+        return _vop(path, idx[-1], path[idx[-1]].ast.value) if idx else None
+    ok = lparam in init.params
+    seen = {True: 0, False: 0}
+    for none_ in (True, False):
+        for path in (_pu(ff, {f'{lparam} is None': none_}, frozen=[lparam]) if ok else []):
+            if path[-1] is not icfg.exit:
+                continue
+            seen[none_] += 1
+            lv, cv = final(path, 'self._loader'), final(path, 'self._load_context')
+            if none_:
+                ok = ok and lv is not None and norm(lv).endswith('get_object_loader()')
+            else:
+                ext_ = isinstance(cv, ast.Call) and isinstance(cv.func, ast.Attribute) and cv.func.attr == 'copyextend' and any(k.arg == 'loader' and norm(k.value) == lparam for k in cv.keywords)
+                ok = ok and lv is not None and norm(lv) == lparam and ext_
+    ok = ok and seen[True] > 0 and seen[False] > 0
     chk.ob('PROV-loader', init, ok, 'a configured loader is used for loading classes AND put into the load context; without one the global default is used', kind='loader-configured')
     pers = [n for n in ast.walk(init.node) if isinstance(n, ast.Assign) and norm(n.targets[0]) == 'self._persister']
     chk.ob('PROV-loader', init, len(pers) == 1 and norm(pers[0].value) == init.params[2], 'the persister used is the one configured', kind='persister-configured')
